@@ -1,6 +1,8 @@
 package props
 
 import (
+	"fmt"
+	"go/ast"
 	"go/token"
 	"go/types"
 	"sort"
@@ -86,4 +88,120 @@ func c08ValidateReadOnly(c *core.Ctx) {
 	if len(fds) == 0 {
 		c.Ob("C08-R9", "UNRESOLVED:validators", token.NoPos, false, "no validator of a document type found")
 	}
+	// the same for what validation reaches through function values (validation.By callbacks,
+	// rule methods): none re-orders a slice it was handed — sort.* / slices.Sort* / slices.Reverse
+	// work in place, and a slice taken out of the validated value shares its backing array with
+	// the document
+	cg := buildCallers(p)
+	var roots []*types.Func
+	for _, fd := range fds {
+		roots = append(roots, fd.Obj)
+	}
+	reach := cg.forward(roots)
+	nSort := 0
+	for _, fd := range p.AllFuncs() {
+		if !reach[fd.Obj] || p.IsTestFile(fd.Decl.Pos()) || fd.Decl.Body == nil {
+			continue
+		}
+		info := fd.Pkg.TypesInfo
+		ld := core.NewLocalDefs(info, fd.Decl.Body)
+		idx := 0
+		ast.Inspect(fd.Decl.Body, func(n ast.Node) bool {
+			call, ok := n.(*ast.CallExpr)
+			if !ok || len(call.Args) == 0 {
+				return true
+			}
+			fn := core.Callee(info, call)
+			if fn == nil || fn.Pkg() == nil {
+				return true
+			}
+			inPlace := false
+			switch fn.Pkg().Path() {
+			case "sort":
+				switch fn.Name() {
+				case "Ints", "Strings", "Float64s", "Slice", "SliceStable", "Sort", "Stable":
+					inPlace = true
+				}
+			case "slices":
+				inPlace = strings.HasPrefix(fn.Name(), "Sort") || fn.Name() == "Reverse"
+			}
+			if !inPlace {
+				return true
+			}
+			nSort++
+			idx++
+			// a slice made in this function (make, append to nil/literal, a literal, a clone) is its own
+			arg := ast.Unparen(call.Args[0])
+			own := false
+			if v := core.VarOf(info, arg); v != nil && !v.IsField() {
+				ds := ld.All(v)
+				own = len(ds) > 0
+				for _, d := range ds {
+					if d.RHS == nil {
+						continue // var x []T
+					}
+					switch r := ast.Unparen(d.RHS).(type) {
+					case *ast.CompositeLit:
+					case *ast.CallExpr:
+						okCall := false
+						if id, isID := r.Fun.(*ast.Ident); isID && (id.Name == "make" || id.Name == "append") {
+							okCall = true
+							if id.Name == "append" && len(r.Args) > 0 {
+								if av := core.VarOf(info, r.Args[0]); av != v && !core.IsNil(info, r.Args[0]) {
+									if _, isLit := ast.Unparen(r.Args[0]).(*ast.CompositeLit); !isLit {
+										if cv, isConv := ast.Unparen(r.Args[0]).(*ast.CallExpr); !isConv || len(cv.Args) != 1 || !core.IsNil(info, cv.Args[0]) {
+											okCall = false
+										}
+									}
+								}
+							}
+						}
+						if f2 := core.Callee(info, r); f2 != nil && f2.Pkg() != nil && f2.Pkg().Path() == "slices" && f2.Name() == "Clone" {
+							okCall = true
+						}
+						if !okCall {
+							own = false
+						}
+					default:
+						own = false
+					}
+				}
+			}
+			// only what comes out of the validated value matters: a member of a document
+			// structure, or what a validation callback asserts out of the `any` it is handed
+			fromDoc := false
+			if rv := core.RootVar(info, arg); rv != nil {
+				if n, _ := core.StructOf(rv.Type()); n != nil && docType[n] {
+					fromDoc = true
+				}
+				if _, isIface := rv.Type().Underlying().(*types.Interface); isIface {
+					fromDoc = true
+				}
+				for _, d := range ld.All(rv) {
+					if d.RHS == nil {
+						continue
+					}
+					if ta, ok := ast.Unparen(d.RHS).(*ast.TypeAssertExpr); ok {
+						if xv := core.VarOf(info, ta.X); xv != nil {
+							if _, isIface := xv.Type().Underlying().(*types.Interface); isIface {
+								fromDoc = true
+							}
+						}
+					}
+					if rr := core.RootVar(info, d.RHS); rr != nil && rr != rv {
+						if n, _ := core.StructOf(rr.Type()); n != nil && docType[n] {
+							fromDoc = true
+						}
+					}
+				}
+			}
+			if !fromDoc {
+				return true
+			}
+			c.Ob("C08-R9", fmt.Sprintf("%s#in-place-order%d", fd.Name(), idx), call.Pos(), own,
+				fmt.Sprintf("validation reaches %s, which re-orders %s in place (%s.%s) although the slice is not one this function made: a slice taken out of the validated value shares its backing array with the document, so validating re-orders the document before its digest is compared — an edit that only re-orders the entries goes unnoticed, and an untouched document with unsorted entries is reported as tampered", fd.Name(), types.ExprString(arg), fn.Pkg().Name(), fn.Name()))
+			return true
+		})
+	}
+	c.Extra("C08-R9_in_place_orderings_reached_by_validation", nSort)
 }
